@@ -30,6 +30,8 @@ def run_one(prop, mut, src_root):
         if s.count(mut["old"]) < 1:
             return {"id": mut["id"], "result": "pattern-not-found"}
         s = s.replace(mut["old"], mut["new"], mut.get("count", 1))
+        if mut.get("append"):
+            s += mut["append"]
         p.write_text(s)
         env = dict(os.environ)
         env["REDRESS_SRC"] = str(d / "src")
